@@ -595,6 +595,20 @@ class Evaluator:
         self.assign(st.target, v, fr)
         return self._maybe_raise(v)
 
+    def _record_as_tuple(self, v):
+        """An object of a NamedTuple record class is the tuple of its fields in declaration order."""
+        if T.tag(v) == 'phi':
+            a, b = self._record_as_tuple(v[2]), self._record_as_tuple(v[3])
+            return v if (a is v[2] and b is v[3]) else T.phi(v[1], a, b)
+        if T.tag(v) == 'obj':
+            ci = self.p.classes.get(v[1])
+            if ci is not None and ci.is_record and any(b.split('.')[-1] == 'NamedTuple' for c_ in ci.mro() for b in c_.base_names):
+                f = T.obj_fields(v)
+                names = [nm for nm, _ in ci.fields]
+                if all(nm in f for nm in names):
+                    return T.tup([f[nm] for nm in names])
+        return v
+
     def _property_setter(self, objterm, name):
         ci = self.p.classes.get(objterm[1])
         return ci.find_setter(name) if ci is not None else None
@@ -604,6 +618,7 @@ class Evaluator:
             fr.env[target.id] = v
         elif isinstance(target, (ast.Tuple, ast.List)):
             n = len(target.elts)
+            v = self._record_as_tuple(v)
             if T.tag(v) in ('tuple', 'list') and len(v[1]) == n:
                 for e, x in zip(target.elts, v[1]):
                     self.assign(e, x, fr)
@@ -1625,6 +1640,8 @@ class Evaluator:
             return self._slice(base, idx[2], idx[3])
         if T.is_op(base, 'BARR'):
             return T.getitem(base[2], idx)
+        if T.tag(base) == 'obj':
+            base = self._record_as_tuple(base)
         return T.getitem(base, idx)
 
     def ex_JoinedStr(self, e, fr):
